@@ -24,7 +24,7 @@ def jobs(tier, seed):
     # four dumps, a bigger object saved in between, 48 paths).
     read_only_variants = ('zeros511', 'zeros512', 'zeros1+block3', 'zero_prologue', 'params_first', 'out_of_order_ids', 'sparse+reversed', 'zero_offset_terminator',
                           'zero_offset_terminator+canonical+plain', 'zero_offset_terminator+reversed+described', 'zero_offset_terminator+reversed+plain',
-                          'zero_offset_terminator+params_first+described', 'zero_offset_terminator+params_first+plain', 'first_frame_2', 'extra_param_block', 'events3', 'desc128')
+                          'zero_offset_terminator+params_first+described', 'zero_offset_terminator+params_first+plain', 'first_frame_2', 'extra_param_block', 'events3', 'desc128', 'labels_more')
     for j in c02.jobs(tier, seed):
         if tier == 'quick' and (is_sweep(j) or j['name'] in read_only_variants): continue
         j = dict(j); j['entry'] = 'h_c14'; j['harness'] = 'h_c01.cpp'; j['cfg'] = {'source': 1}; j['variant'] = j['name']; j['name'] = 'loaded'
